@@ -968,3 +968,12 @@ package core
 //@ func (*IndexedState).add
 //@   loop 1: invariant[C02.ix_add_index_loop] forall(t, string, forall(k, int, 0 <= k && k <= rangeindex && terms[k] == t ==> hasEntry(s.FactIndex, t, id)))
 //@   assert[C02.ix_add_indexes_every_term_of_the_stored_fact] at "s.IdToFact[id]": forall(t, string, forall(k, int, 0 <= k && k < len(terms) && terms[k] == t ==> hasEntry(s.FactIndex, t, id)))
+
+// C03/C09: a pattern query sees every matching fact, local or inherited: the ancestor walk merges exactly the list each
+// location's search returned (no filtering, no de-duplication across locations).
+//@ ghost sfFound []SearchResult
+//@ func (*Location).searchFacts
+//@   ghost-ensures result1 == nil ==> sfFound == result0.Found
+//@   also-modifies sfFound
+//@ func (*Location).searchFactsAncestors$1
+//@   assert[C03+C09.ancestors_merge_what_each_search_returned] at "srs.Merge(more)": more.Found == sfFound
